@@ -34,6 +34,10 @@ type SimCfg struct {
 	Mutate        []func(cdc codec.Codec, gs map[string]json.RawMessage)
 	ExtraAccounts []world.FundedAccount
 	AddrFilter    func(i int) func([]byte) bool
+	// Record keeps every produced block (twin execution)
+	Record bool
+	// OnSubmit: see Sim.OnSubmit (set before the first transaction)
+	OnSubmit func(a *world.Account, msgs []sdk.Msg, res world.SubmitResult)
 	// fault knobs (probabilities are per block, x/1000)
 	RestartPerMille int
 	CrashPerMille   int
@@ -56,6 +60,8 @@ type Sim struct {
 	AbortWhy string
 	// OnRestart is invoked after a node restart (clients resync).
 	OnRestart func()
+	// OnSubmit observes every transaction an actor submits (template harvesting for C03).
+	OnSubmit func(a *world.Account, msgs []sdk.Msg, res world.SubmitResult)
 }
 
 var baseTime = time.Unix(1_700_000_000, 0).UTC()
@@ -64,7 +70,7 @@ func NewSim(r *core.Run, cfg SimCfg) *Sim {
 	if cfg.ChainID == "" {
 		cfg.ChainID = "sim-paloma"
 	}
-	s := &Sim{R: r, T: r.Tape, Cfg: cfg}
+	s := &Sim{R: r, T: r.Tape, Cfg: cfg, OnSubmit: cfg.OnSubmit}
 	s.N = world.NewNode(nil, cfg.ChainID)
 	var vspecs []world.ValidatorSpec
 	for i := 0; i < cfg.NVals; i++ {
@@ -95,6 +101,7 @@ func NewSim(r *core.Run, cfg SimCfg) *Sim {
 	s.Genesis = baseTime
 	spec := &world.GenesisSpec{ChainID: cfg.ChainID, InitialHeight: cfg.InitialHeight, GenesisTime: s.Genesis,
 		Validators: vspecs, Accounts: funded, VotingPeriod: cfg.VotingPeriod, Mutate: cfg.Mutate}
+	s.N.Record = cfg.Record
 	s.N.InitChain(spec)
 	s.Now = s.Genesis
 	// the first block makes the state queryable
@@ -162,6 +169,9 @@ func (s *Sim) Ctx() sdk.Context { return s.N.QueryCtx() }
 // Submit sends a single-signer tx and records it in the trace.
 func (s *Sim) Submit(a *world.Account, msgs ...sdk.Msg) world.SubmitResult {
 	res := s.N.Submit(a, msgs...)
+	if s.OnSubmit != nil {
+		s.OnSubmit(a, msgs, res)
+	}
 	return res
 }
 
